@@ -4,6 +4,11 @@ import json, os
 V = os.path.dirname(os.path.dirname(os.path.abspath(__file__)))
 
 CLAIMED = {
+ "C20": dict(
+   category="other", design_ref="DESIGN.md §5 C20, §9.1",
+   text="Partial by nature: what is proved is the lock DISCIPLINE, not the Go memory model. (1) Generic Lean theorem C20.lockset_sound: in a trace semantics of Mutex/RWMutex, two conflicting accesses by different threads that each hold a common mutex (the writer exclusively) are separated by a release of that mutex. (2) Re-checked on every run against a fact table REGENERATED from the repository's source by extract/main.go (19 mutex-owning types of the anchor files, 167 methods, ~350 field-access facts with the own mutexes held, ~120 acquisitions, ~245 calls): C20.all_guarded (every field is accessed under one common mutex of its object, or never written after construction, or a channel/sync object, or on a 3-entry reviewed exemption list), C20.segment_under_store_lock, C20.no_self_acquire, C20.lock_order_acyclic / lock_order_reviewed, C20.callouts_as_reviewed (user code runs under a lock only at reviewed sites), C20.sections_reviewed (methods with more than one critical section), C20.snapshots_not_written_in_place (slices aliased out of a critical section are never shifted in place). (3) Search/oracle: race-detector stress program over 11 object kinds, GOMAXPROCS 4 and 16 (quick) / 2,4,16 × 3 seeds (thorough), with panic recovery and deadlock watchdog.",
+   note="The extractor (intra-procedural, flow-sensitive lock-state walk; private helpers inherit the locks held at all call sites) is in the trusted base; races through objects published by pointer, unsafe, or outside the 15 anchored files are beyond the table; the race detector only sees schedules that ran. Fixed defects found by the discipline/stress: Local.Store deadlock, in-place slice shifts under Open, agent frames mutated after publication, assemblers holding their lock across re-entrant compilers, WaitGroup misuse in Fork/Join.",
+   technique="Lean 4 proof of lock-set soundness + kernel-checked (decide) discipline over a fact table regenerated from source by a translator + race-detector stress search"),
  "C02": dict(
    category="proof", design_ref="DESIGN.md §5 C02, §9.1",
    text="13 Lean theorems about the executable models of packet.Tracer (seven maps, resolve with its slot search and reader loop, transcribed; fixed and pinned variants) and of the node loops as small-step programs in which Read, Link, Write and a backward answer are separate steps: C02.node_contract_partial (one-to-one node: for EVERY schedule of deliver / read / action returns / Link / Write accepted-or-not / downstream answer, with any number of requests in flight, the node's replies equal the specification's and nothing panics), C02.node_answers_in_read_order / spec_answers_in_read_order (k-th reply answers the k-th read, exactly once), C02.spec_reply_content, C02.spec_echo_when_not_accepted, C02.tracer_quiescent_empty (nothing in flight ⇒ all seven maps empty), C02.compose (assume/guarantee composition over a finite acyclic graph), C02.pinned_tree_violates (the reproduced defect, by rfl). One-to-many and many-to-one nodes are covered by correspondence and oracle only (C02.node_contract_full is stated, not proved). Tied to the code by differential execution of random acyclic workflows of 1–6 real nodes (chains, fan-out, diamonds, fan-in, unconnected and error outputs; 1–4 pipelined requests; actions blocked on harness channels; every line of the schedule compared with the whole-graph model) plus an independent Go reference of the request tree.",
